@@ -50,7 +50,7 @@ class C26(Prop):
     props_file = "Props/C26.v"
     preamble = ("From Coq Require Import List QArith.\nImport ListNotations.\n"
                 "From PP Require Import Model.C33 Model.C26.\nOpen Scope Q_scope.\n")
-    n_cases = (40, 500)
+    n_cases = (80, 600)
     design_ref = "DESIGN.md §5 C26"
     level_text = (
         "P-core.  Coq theorems over an exact-rational transcription of MortarGrid._init_projections, "
